@@ -443,6 +443,26 @@ impl PacketTrait for SecretSubkey {
     }
 }
 
+/// The packet header for a secret key packet whose secret parameters were replaced: same format
+/// and tag, with the length of the current contents.
+fn updated_packet_header(
+    packet_header: &PacketHeader,
+    public_len: usize,
+    secret_params: &SecretParams,
+    version: crate::types::KeyVersion,
+) -> Result<PacketHeader> {
+    // only headers that carry a length need an update
+    if packet_header.packet_length().maybe_len().is_none() {
+        return Ok(*packet_header);
+    }
+    let len = public_len + secret_params.write_len(version);
+    PacketHeader::from_parts(
+        packet_header.version(),
+        packet_header.tag(),
+        crate::types::PacketLength::Fixed(len.try_into()?),
+    )
+}
+
 impl SecretKey {
     /// Remove the password protection of the private key material in this secret key packet.
     /// This permanently "unlocks" the secret key material.
@@ -454,6 +474,12 @@ impl SecretKey {
         if let SecretParams::Encrypted(enc) = &self.secret_params {
             let unlocked = enc.unlock(password, &self.details, Some(self.packet_header.tag()))?;
             self.secret_params = SecretParams::Plain(unlocked);
+            self.packet_header = updated_packet_header(
+                &self.packet_header,
+                crate::ser::Serialize::write_len(&self.details),
+                &self.secret_params,
+                self.details.version(),
+            )?;
         }
 
         Ok(())
@@ -499,6 +525,12 @@ impl SecretKey {
             &self.details,
             Some(self.packet_header.tag()),
         )?);
+        self.packet_header = updated_packet_header(
+            &self.packet_header,
+            crate::ser::Serialize::write_len(&self.details),
+            &self.secret_params,
+            self.details.version(),
+        )?;
 
         Ok(())
     }
@@ -515,6 +547,12 @@ impl SecretSubkey {
         if let SecretParams::Encrypted(enc) = &self.secret_params {
             let unlocked = enc.unlock(password, &self.details, Some(self.packet_header.tag()))?;
             self.secret_params = SecretParams::Plain(unlocked);
+            self.packet_header = updated_packet_header(
+                &self.packet_header,
+                crate::ser::Serialize::write_len(&self.details),
+                &self.secret_params,
+                self.details.version(),
+            )?;
         }
 
         Ok(())
@@ -558,6 +596,12 @@ impl SecretSubkey {
             &self.details,
             Some(self.packet_header.tag()),
         )?);
+        self.packet_header = updated_packet_header(
+            &self.packet_header,
+            crate::ser::Serialize::write_len(&self.details),
+            &self.secret_params,
+            self.details.version(),
+        )?;
 
         Ok(())
     }
